@@ -327,6 +327,11 @@ pub fn program_files(seed: u64) -> Option<(Vec<(String, String)>, Vec<(String, S
     Some((files, api))
 }
 
+pub fn program_line(seed: u64) -> String {
+    let mut rng = Rng::new(seed);
+    gen_program(&mut rng, seed % 5 == 0, seed % 3 == 0)
+}
+
 pub fn gen_cases(seed: u64, n: usize, _thorough: bool) -> Vec<String> {
     let mut rng = Rng::new(seed);
     let mut out: Vec<String> = Vec::new();
